@@ -88,6 +88,13 @@ def rand_callable_spec(rng):
         return dict(kind='poly', coefs=[round(rng.uniform(-5, 5), 3) for _ in range(n)], deriv=rng.random() < 0.6, deriv2=rng.random() < 0.3)
     return dict(kind='exp', A=round(rng.uniform(1, 2000), 2), b=round(rng.uniform(0.5, 4), 3), deriv=rng.random() < 0.6)
 
+def root_on_grid_spec(rng, r0):
+    """a callable that is exactly 0.0 at the grid point r0 with a non-zero slope there (the force column must not be short-cut
+    where the energy vanishes), alone or as a factor of the library's product()"""
+    c = rng.choice([1.0, -3.0, 2.5])
+    if rng.random() < 0.5: return dict(kind='poly', coefs=[-c * r0, c], deriv=rng.random() < 0.7, deriv2=False)
+    return dict(kind='product', a=[-r0, 1.0], b=[rng.choice([1.5, 2.0, 4.0]), rng.choice([0.25, 0.5])], deriv=True)
+
 def potable_main(argv):
     """run the potable CLI in-process; returns (exit code, stdout, stderr)"""
     from atsim.potentials.tools.potable import main
